@@ -1,0 +1,220 @@
+//go:build verif
+
+// Contracts for package bid_data (stores of the external bid application) — property C07 (mempool checks are isolated
+// from consensus execution), clause family C07.bid-prefix.
+// Comment-only file, read by /verif/govc.
+//
+// One BidConvStore object serves five key spaces (active / succeed / rejected / cancelled / expired), selected by the
+// field `prefix`, a cursor that WithPrefixType moves IN PLACE. The object is a singleton inside the BidMasterStore that
+// app.context registers in the external-store router: the mempool path (CheckTx) and the consensus path (BeginBlock,
+// DeliverTx, EndBlock) work on the same object, so whatever position a CheckTx leaves the cursor on is the position the
+// next consensus call finds. The block-begin hook of the bid application (bid_block_func.AddExpireBidTxToQueue) scans the
+// store WITHOUT selecting a key space first: the code relies on the cursor being on ACTIVE between any two ABCI calls.
+// bidConvOnActive states that invariant; the contracts below say, for every method the bid handlers use, where it leaves
+// the cursor.
+
+package bid_data
+
+// constants of this package for use in other packages' contracts
+//@ ghost func bidStInvalid() BidConvState = BidStateInvalid
+//@ ghost func bidStActive() BidConvState = BidStateActive
+//@ ghost func bidStSucceed() BidConvState = BidStateSucceed
+//@ ghost func bidStCancelled() BidConvState = BidStateCancelled
+//@ ghost func bidStExpired() BidConvState = BidStateExpired
+//@ ghost func bidStRejected() BidConvState = BidStateRejected
+
+// bidConvOnActive(s): the cursor of the conversation store is on the ACTIVE key space.
+// NewBidConvStore establishes it (prefix and prefixActive are both built from the string prefixActive); WithPrefixType
+// assigns the prefixXxx field itself, so after WithPrefixType(BidStateActive) the two fields are the same value.
+//@ ghost func bidConvOnActive(s *BidConvStore) bool = s != nil && str(s.prefix) == str(s.prefixActive)
+
+// bidPfx(s, k): the key space WithPrefixType(k) selects; any k that is none of the five states leaves the cursor alone
+//@ ghost func bidPfx(s *BidConvStore, k BidConvState) bytes = k == BidStateActive ? s.prefixActive : (k == BidStateSucceed ? s.prefixSucceed : (k == BidStateRejected ? s.prefixRejected : (k == BidStateCancelled ? s.prefixCancelled : (k == BidStateExpired ? s.prefixExpired : s.prefix))))
+
+// bidMasterOK(m): the master store has both parts (ConstructBidMasterStore)
+//@ ghost func bidMasterOK(m *BidMasterStore) bool = m != nil && m.BidConv != nil && m.BidOffer != nil
+
+// ---------------------------------------------------------------- the cursor
+
+// NewBidConvStore: the cursor starts on ACTIVE (established at application start, LoadAppData -> NewBidMasterStore)
+//@ func NewBidConvStore
+//@   modifies nothing                                                                                                      // C07.bid-prefix
+//@   ensures result != nil && fresh(result) && bidConvOnActive(result) && result.state == state                            // C07.bid-prefix
+
+// WithPrefixType MUTATES the store and returns THE SAME object: two results of WithPrefixType are aliases, the key space in
+// force is the one selected by the LAST call. Nothing but the cursor changes.
+//@ func (*BidConvStore).WithPrefixType
+//@   requires bcs != nil                                                                                                    // C07.bid-prefix
+//@   modifies bcs.prefix                                                                                                   // C07.bid-prefix
+//@   ensures result == bcs                                                                                                  // C07.bid-prefix
+//@   ensures prefixType == BidStateActive ==> bcs.prefix == bcs.prefixActive                                                // C07.bid-prefix
+//@   ensures prefixType == BidStateSucceed ==> bcs.prefix == bcs.prefixSucceed                                              // C07.bid-prefix
+//@   ensures prefixType == BidStateRejected ==> bcs.prefix == bcs.prefixRejected                                            // C07.bid-prefix
+//@   ensures prefixType == BidStateCancelled ==> bcs.prefix == bcs.prefixCancelled                                          // C07.bid-prefix
+//@   ensures prefixType == BidStateExpired ==> bcs.prefix == bcs.prefixExpired                                              // C07.bid-prefix
+//@   ensures prefixType != BidStateActive && prefixType != BidStateSucceed && prefixType != BidStateRejected && prefixType != BidStateCancelled && prefixType != BidStateExpired ==> bcs.prefix == old(bcs.prefix)   // C07.bid-prefix
+//@   ensures prefixType == BidStateActive ==> bidConvOnActive(bcs)                                                          // C07.bid-prefix
+
+// WithState re-aims the state pointer; the cursor stays
+//@ func (*BidConvStore).WithState
+//@   requires bcs != nil
+//@   modifies bcs.state                                                                                                    // C07.bid-prefix
+//@   ensures result == bcs && bcs.state == state
+
+// ---------------------------------------------------------------- record access under the cursor: frames, verified on the bodies
+//
+// Get / Set / Delete / Exists read or write one State key (Exists: six reads); none of them moves the cursor. Only the
+// frame is stated here (what C07.bid-prefix needs); the frame is that of the storage.State method each of them calls.
+
+//@ func (*BidConvStore).Get
+//@   requires bcs != nil && wfState(bcs.state)
+//@   modifies exhausted(bcs.state.cache), exhausted(bcs.state.txSession)                                                   // C07.bid-prefix
+//@   ensures err == nil ==> result0 != nil && fresh(result0)
+//@   ensures wfState(bcs.state)
+
+//@ func (*BidConvStore).Exists
+//@   requires bcs != nil && wfState(bcs.state)
+//@   modifies exhausted(bcs.state.cache), exhausted(bcs.state.txSession)                                                   // C07.bid-prefix
+//@   ensures wfState(bcs.state)
+
+//@ func (*BidConvStore).Set
+//@   requires bcs != nil && bid != nil && wfState(bcs.state)
+//@   modifies mapof(kvmap(bcs.state.cache)), mapof(kvmap(bcs.state.txSession)), exhausted(bcs.state.cache), exhausted(bcs.state.txSession), rep(bcs.state.cache), rep(bcs.state.txSession), vHas(bcs.state), vVal(bcs.state), bHas(bcs.state), bVal(bcs.state) // C07.bid-prefix
+//@   ensures wfState(bcs.state) && sessOpen(bcs.state) == old(sessOpen(bcs.state))
+//@   ensures old(sessOpen(bcs.state)) ==> bHas(bcs.state) == old(bHas(bcs.state)) && bVal(bcs.state) == old(bVal(bcs.state))
+
+//@ func (*BidConvStore).Delete
+//@   requires bcs != nil && wfState(bcs.state)
+//@   modifies mapof(kvmap(bcs.state.cache)), mapof(kvmap(bcs.state.txSession)), exhausted(bcs.state.cache), exhausted(bcs.state.txSession), rep(bcs.state.cache), rep(bcs.state.txSession), vHas(bcs.state), vVal(bcs.state), bHas(bcs.state), bVal(bcs.state) // C07.bid-prefix
+//@   ensures wfState(bcs.state) && sessOpen(bcs.state) == old(sessOpen(bcs.state))
+//@   ensures old(sessOpen(bcs.state)) ==> bHas(bcs.state) == old(bHas(bcs.state)) && bVal(bcs.state) == old(bVal(bcs.state))
+//@   ensures old(sessOpen(bcs.state)) ==> result0 && err == nil
+
+// Iterate: a prefix scan of the key space the cursor is on (State.IterateRange from bcs.prefix to Rangefix of the SAME
+// bcs.prefix: C09.prefix-scan at the call). It reads the cursor, it does not move it.
+// bidScanCount(bcs)[p] is only a NAME for the number of records a scan of key space p visits (no claim about it; the
+// block-begin hook uses it to bound the number of commits it makes on the internal-transaction State).
+// KNOWN FAILING, real code (not C07: tagged C09.bid-scan): the wrapper `return true`s when a value does not decode, which
+// silently ends the whole scan (iter-stop[iter1]) instead of skipping the record.
+//@ model bidScanCount(*BidConvStore) array[string]int
+//@ func (*BidConvStore).Iterate
+//@   iterator                                                                                                               // C09.bid-scan
+//@   requires bcs != nil && bcs.state != nil
+//@   modifies exhausted(bcs.state.cache), exhausted(bcs.state.txSession)                                                   // C07.bid-prefix
+//@   count bidScanCount(bcs)[str(bcs.prefix)]
+//@   yields scanKey(y0, str(bcs.prefix)) && y1 != nil                                                                       // C09.bid-scan
+
+// FilterBidConvs moves the cursor to the requested key space, scans it, and a DEFERRED closure (FilterBidConvs$1:
+// `bcs.prefix = prefix`) puts the cursor back where the call found it, on every path including a panic in the scan.
+// The engine ignores deferred closures (message: "defer (*BidConvStore).FilterBidConvs$1 ignored"), so the contract of
+// the function is ASSUMED; the deferred closure itself is verified below: it writes the cursor value captured at entry.
+// What the call leaves behind: the cursor exactly as it was at entry (NOT on the key space that was scanned).
+//@ assume func (*BidConvStore).FilterBidConvs
+//@   requires bcs != nil && bcs.state != nil
+//@   modifies exhausted(bcs.state.cache), exhausted(bcs.state.txSession)                                                   // C07.bid-prefix
+//@   ensures bcs.prefix == old(bcs.prefix)                                                                                  // C07.bid-prefix
+
+// (a modifies clause cannot name captured variables: the frame is "BidConvStore objects", the clause says which field of which)
+//@ func (*BidConvStore).FilterBidConvs$1
+//@   modifies heap("BidConvStore")                                                                                         // C07.bid-prefix
+//@   ensures bcs.prefix == prefix                                                                                           // C07.bid-prefix
+
+// QueryAllStores probes the five key spaces in turn and, like FilterBidConvs, puts the cursor back in a deferred closure
+// (QueryAllStores$1), which the engine ignores: assumed for the same reason. Not used by any handler (rpc query only, on
+// the rpc service's own BidMasterStore object).
+//@ assume func (*BidConvStore).QueryAllStores
+//@   requires bcs != nil && bcs.state != nil
+//@   modifies exhausted(bcs.state.cache), exhausted(bcs.state.txSession)                                                   // C07.bid-prefix
+//@   ensures bcs.prefix == old(bcs.prefix)                                                                                  // C07.bid-prefix
+
+//@ func (*BidConvStore).QueryAllStores$1
+//@   modifies heap("BidConvStore")                                                                                         // C07.bid-prefix
+//@   ensures bcs.prefix == prefix                                                                                           // C07.bid-prefix
+
+// ---------------------------------------------------------------- the master store
+
+// stWrites(s): everything a write through State s may change (frame of storage.(*State).Set / Delete, whole key space)
+//@ footprint stWrites(self *storage.State) = mapof(kvmap(self.cache)), mapof(kvmap(self.txSession)), exhausted(self.cache), exhausted(self.txSession), rep(self.cache), rep(self.txSession), vHas(self), vVal(self), bHas(self), bVal(self)
+
+// WithState re-aims both parts; the cursor of the conversation store stays
+//@ func (*BidMasterStore).WithState
+//@   requires bidMasterOK(bm)
+//@   modifies bm.BidConv.state, bm.BidOffer.State                                                                          // C07.bid-prefix
+//@   ensures bm.BidConv.state == state && bm.BidOffer.State == state
+
+//@ func (*BidOfferStore).WithState
+//@   requires bos != nil
+//@   modifies bos.State                                                                                                    // C07.bid-prefix
+//@   ensures result == bos && bos.State == state
+
+// ---------------------------------------------------------------- the offer store: no cursor (its prefix is fixed at construction); frames only
+//
+// Verified on the bodies (get / set / delete and the key builders are inlined). None of them can reach a BidConvStore.
+
+//@ func (*BidOfferStore).GetActiveOffer
+//@   requires bos != nil && wfState(bos.State)
+//@   modifies exhausted(bos.State.cache), exhausted(bos.State.txSession)                                                   // C07.bid-prefix
+//@   ensures result0 != nil ==> fresh(result0)
+//@   ensures wfState(bos.State)
+
+//@ func (*BidOfferStore).SetActiveOffer
+//@   requires bos != nil && wfState(bos.State)
+//@   modifies stWrites(bos.State)                                                                                          // C07.bid-prefix
+//@   ensures wfState(bos.State) && sessOpen(bos.State) == old(sessOpen(bos.State))
+
+//@ func (*BidOfferStore).SetInActiveOffer
+//@   requires bos != nil && wfState(bos.State)
+//@   modifies stWrites(bos.State)                                                                                          // C07.bid-prefix
+//@   ensures wfState(bos.State) && sessOpen(bos.State) == old(sessOpen(bos.State))
+
+//@ func (*BidOfferStore).DeleteActiveOffer
+//@   requires bos != nil && wfState(bos.State)
+//@   modifies stWrites(bos.State)                                                                                          // C07.bid-prefix
+//@   ensures wfState(bos.State) && sessOpen(bos.State) == old(sessOpen(bos.State))
+
+//@ func NewBidOffer
+//@   modifies nothing                                                                                                      // C07.bid-prefix
+//@   ensures result != nil && fresh(result)
+
+//@ assume func generateBidConvID
+//@   modifies nothing                                                                                                      // C07.bid-prefix
+
+//@ func NewBidConv
+//@   modifies nothing                                                                                                      // C07.bid-prefix
+//@   ensures result != nil && fresh(result)
+
+// ---------------------------------------------------------------- bid assets (called through the BidAsset interface from the handlers)
+//
+// What an asset implementation may touch: the domain store of the context and the State behind it. It never sees the bid
+// stores (it gets the context, and reaches stores through named context fields only).
+//@ interface BidAsset
+//@   method NewAssetWithName
+//@     modifies nothing                                                                                                    // C07.bid-prefix
+//@     ensures result != nil
+//@   method ValidateAsset
+//@     requires arg0 != nil && arg0.Domains != nil && wfState(arg0.State) && wfState(arg0.Domains.State)
+//@     modifies exhausted(arg0.Domains.State.cache), exhausted(arg0.Domains.State.txSession)                               // C07.bid-prefix
+//@     ensures wfState(arg0.Domains.State) && wfState(arg0.State)
+//@   method ExchangeAsset
+//@     requires arg0 != nil && arg0.Domains != nil && arg0.Header != nil && wfState(arg0.State) && wfState(arg0.Domains.State) && sessOpen(arg0.Domains.State)
+//@     modifies domHas(arg0.Domains), dom(arg0.Domains), domPrice(arg0.Domains), stWrites(arg0.Domains.State)              // C07.bid-prefix
+//@     ensures wfState(arg0.Domains.State) && sessOpen(arg0.Domains.State) && (arg0.Domains.State == arg0.State ==> wfState(arg0.State))
+
+//@ func (*DomainAsset).NewAssetWithName
+//@   implements BidAsset
+//@   modifies nothing                                                                                                      // C07.bid-prefix
+//@ func (*DomainAsset).ValidateAsset
+//@   implements BidAsset
+//@   modifies exhausted(ctx.Domains.State.cache), exhausted(ctx.Domains.State.txSession)                                   // C07.bid-prefix
+//@ func (*DomainAsset).ExchangeAsset
+//@   implements BidAsset
+//@   modifies domHas(ctx.Domains), dom(ctx.Domains), domPrice(ctx.Domains), stWrites(ctx.Domains.State)                    // C07.bid-prefix
+//@ func (*ExampleAsset).NewAssetWithName
+//@   implements BidAsset
+//@   modifies nothing                                                                                                      // C07.bid-prefix
+//@ func (*ExampleAsset).ValidateAsset
+//@   implements BidAsset
+//@   modifies nothing                                                                                                      // C07.bid-prefix
+//@ func (*ExampleAsset).ExchangeAsset
+//@   implements BidAsset
+//@   modifies nothing                                                                                                      // C07.bid-prefix
